@@ -101,6 +101,42 @@ RemoveAbsenceF(lg) ==
       m == MapLogs(lg, LAMBDA s: Drop(s, S))
   IN [m EXCEPT !.absL = <<>>, !.time = Len(m.pcost)]
 
+\* insert_absence_time_list(L): the steps of L that are not absence steps yet are inserted in
+\* ascending order, each only if it lies inside the logs as they are at that moment; an inserted
+\* row repeats the previous remaining work / allocation / placement, costs nothing, shows
+\* resources FREE and tasks/components in the state the encoders of the library choose.
+InsAt(s, i, x) == SubSeq(s, 1, i) \o <<x>> \o SubSeq(s, i + 1, Len(s))     \* i = 0-based index
+InsState(s, i) ==
+  IF i = 0 THEN "NONE"
+  ELSE LET before == s[i]  after == s[i + 1]
+       IN IF before = "WORKING" THEN (IF after = "FINISHED" THEN "FINISHED" ELSE "READY")
+          ELSE IF before = "NONE" /\ after = "WORKING" THEN "READY"
+          ELSE before
+InsertOne(cfg, lg, i) ==
+  IF i >= Len(lg.pcost) THEN lg
+  ELSE LET prev(s, dflt) == IF i = 0 THEN dflt ELSE s[i]
+       IN [lg EXCEPT
+             !.pcost = InsAt(@, i, 0), !.ocost = InsAt(@, i, 0),
+             !.mcost = [m \in Teams(cfg) |-> InsAt(lg.mcost[m], i, 0)],
+             !.pwcost = [p \in Wps(cfg) |-> InsAt(lg.pwcost[p], i, 0)],
+             !.ts  = [t \in Tasks(cfg) |-> InsAt(lg.ts[t], i, InsState(lg.ts[t], i))],
+             !.rem = [t \in Tasks(cfg) |-> InsAt(lg.rem[t], i, prev(lg.rem[t], InitRem(cfg, t)))],
+             !.aw  = [t \in Tasks(cfg) |-> InsAt(lg.aw[t], i, prev(lg.aw[t], <<-1>>))],
+             !.af  = [t \in Tasks(cfg) |-> InsAt(lg.af[t], i, prev(lg.af[t], <<-1>>))],
+             !.ws  = [w \in Workers(cfg) |-> InsAt(lg.ws[w], i, "FREE")],
+             !.wcost = [w \in Workers(cfg) |-> InsAt(lg.wcost[w], i, 0)],
+             !.wt  = [w \in Workers(cfg) |-> InsAt(lg.wt[w], i, prev(lg.wt[w], <<-1>>))],
+             !.fs  = [f \in Facs(cfg) |-> InsAt(lg.fs[f], i, "FREE")],
+             !.fcost = [f \in Facs(cfg) |-> InsAt(lg.fcost[f], i, 0)],
+             !.ft  = [f \in Facs(cfg) |-> InsAt(lg.ft[f], i, prev(lg.ft[f], <<-1>>))],
+             !.cs  = [c \in Comps(cfg) |-> InsAt(lg.cs[c], i, InsState(lg.cs[c], i))],
+             !.cp  = [c \in Comps(cfg) |-> InsAt(lg.cp[c], i, prev(lg.cp[c], 0))],
+             !.pc  = [p \in Wps(cfg) |-> InsAt(lg.pc[p], i, prev(lg.pc[p], <<>>))]]
+InsertAbsenceF(cfg, lg, L) ==
+  LET new == SelectSeq(L, LAMBDA t: ~Mem(lg.absL, t))
+      res == FoldLeft(LAMBDA a, i: InsertOne(cfg, a, i), lg, SetToSortSeq(ToSet(new), <))
+  IN [res EXCEPT !.time = lg.time + (Len(res.pcost) - Len(lg.pcost)), !.absL = lg.absL \o new]
+
 \* ---- backward_simulate: the model the inner simulate() runs on ---------------------------
 \* reverse_dependencies() swaps input/output lists of tasks and workplaces; with
 \* considering_due_time_of_tail_tasks a helper auto task is put in front of every tail task
